@@ -88,20 +88,31 @@ def check(ctx):
     mc = ctx.fn("acting", "MarkerChange.action")
     st = [n for n in ast.walk(mc) if isinstance(n, ast.Assign) and dotted(n.targets[0]) == "mark.data"]
     MC = FuncView(ctx, mc)
-    mt = MC.tests(lambda t: True)
-    only_mark = len(mt) == 1 and dotted(mt[0].ast.test) == "mark"
     stn = MC.stores("mark.data")
-    ctx.check(len(st) == 1 and src(st[0].value) == "storing.Data(share.items())" and only_mark and
-              MC.cfg.always_reaches([mt[0].id], [n.id for n in stn] + [b for b, lab in MC.cfg.succ[mt[0].id] if lab == "F"]),
+    pmc = MC.ptests("mark")
+    only_mark = bool(pmc) and bool(stn) and all(MC.core_facts(n) == {"mark"} for n in stn)
+    if only_mark:
+        t_, lab_ = pmc[0]
+        start = [b for b, l in MC.cfg.succ[t_.id] if l == lab_]
+        esc = MC.cfg.reachable(start, removed_nodes=[n.id for n in stn]) if start else {MC.cfg.exit.id}
+        only_mark = MC.cfg.exit.id not in esc or all(s_ in [n.id for n in stn] for s_ in start)
+    ctx.check(len(st) == 1 and src(st[0].value) == "storing.Data(share.items())" and only_mark,
               "T9-mark", mc, "MarkerChange: whenever the mark exists, mark.data = Data(share.items()) (no other condition)",
               "the snapshot behind `is changed` must be retaken at *every* marker moment; making it conditional on stamps (tick "
               "granularity) or on bookkeeping keeps a stale snapshot when the share was written twice in one tick")
     MUv = FuncView(ctx, mu)
     mtu = [t for t in MUv.cfg.nodes if t.kind == "test"]
     stamp_st = MUv.stores("mark.stamp")
-    mk = [t for t in mtu if dotted(t.ast.test) == "mark"]
-    ctx.check(bool(mk) and bool(stamp_st) and MUv.cfg.always_reaches([mk[0].id], [n.id for n in stamp_st] + [b for b, lab in MUv.cfg.succ[mk[0].id] if lab == "F"]) and
-              all(not any(MUv.dominated_by_edge([n], t, lab) for lab in ("T", "F")) for n in stamp_st for t in mtu if t is not mk[0]),
+    # by path conditions: the only condition on resetting the stamp is that the mark exists, in any spelling of that guard,
+    # and every path on which it exists does reset it
+    pm = MUv.ptests("mark")
+    okm = bool(pm) and bool(stamp_st) and all(MUv.core_facts(n) == {"mark"} for n in stamp_st)
+    if okm:
+        t_, lab_ = pm[0]
+        start = [b for b, l in MUv.cfg.succ[t_.id] if l == lab_]
+        esc = MUv.cfg.reachable(start, removed_nodes=[n.id for n in stamp_st]) if start else {MUv.cfg.exit.id}
+        okm = MUv.cfg.exit.id not in esc or all(s_ in [n.id for n in stamp_st] for s_ in start)
+    ctx.check(okm,
               "T9-mark", mu, "MarkerUpdate: whenever the mark exists, mark.stamp is reset (no other condition)", "the mark must be set at every marker moment")
     nch = ctx.fn("needing", "NeedChange.action")
     N = FuncView(ctx, nch, exc="calls")
